@@ -27,9 +27,9 @@ Arguments ProofsB.feedx : simpl never.
 Lemma rd32_at0 v post : (v < 4294967296)%N -> rd32 (be32 v ++ post) 0 = Some v.
 Proof. intros. unfold rd32, rd, be32. cbn [app nth_error Nat.add]. rewrite be32_val by assumption. reflexivity. Qed.
 
-Lemma one_msg_enc rl len id body :
+Lemma one_msg_enc pol rl len id body :
   (len <> 0)%N -> (len <= 1048576)%N ->
-  one_msg rl (be32 len ++ id :: body) = one_body rl len id (be32 len ++ id :: body).
+  one_msg pol rl (be32 len ++ id :: body) = one_body pol rl len id (be32 len ++ id :: body).
 Proof.
   intros NZ LE. unfold one_msg.
   assert (L4 : (length (be32 len ++ id :: body) <? 4) = false) by (apply Nat.ltb_ge; rewrite app_length; cbn; lia).
@@ -50,9 +50,19 @@ Section Spec.
 Variable HS : Type.
 Variable handle : HS -> msg -> HS * verdict.
 Variable rl : role.
+Variable pol : policy.
 Hypothesis handler_continues : forall h m, snd (handle h m) = VCont.
+(* the close policy accepts the headers of well-formed messages *)
+Definition whdr (m : wmsg) : N * N :=
+  match m with
+  | WKeepAlive => (0, 0) | WChoke => (1, 0) | WUnchoke => (1, 1) | WInterested => (1, 2) | WNotInterested => (1, 3)
+  | WHave _ => (5, 4) | WRequest _ _ _ => (13, 6) | WCancel _ _ _ => (13, 8) | WPort _ => (3, 9)
+  | WPiece _ _ d => (9 + lenN d, 7) | WExt _ d => (2 + lenN d, 20) | WBitfield d => (1 + lenN d, 5)
+  end%N.
+Hypothesis policy_accepts_hdr : forall m, wf_wmsg rl m -> p_hdr pol (fst (whdr m)) (snd (whdr m)) = false.
+Hypothesis policy_accepts_ext : forall ty d, wf_wmsg rl (WExt ty d) -> p_ext pol ty (lenN d) = false.
 
-Notation feedx := (feedx HS handle rl).
+Notation feedx := (feedx HS handle rl pol).
 
 Definition hfold (h : HS) (ms : list msg) : HS := fold_left (fun h m => fst (handle h m)) ms h.
 
@@ -61,7 +71,7 @@ Proof. pose proof (handler_continues h m). destruct (handle h m); cbn in *; cong
 
 (* a message without payload *)
 Lemma feed_plain h l mg n :
-  one_msg rl l = Got mg n -> after mg = None -> skipn n l = [] ->
+  one_msg pol rl l = Got mg n -> after mg = None -> skipn n l = [] ->
   feedx h RIdle l = PRes (fst (handle h mg)) RIdle [] [EMsg mg].
 Proof.
   intros O A S. rewrite feedx_idle, O, (handle_cont h mg), A, S.
@@ -70,7 +80,7 @@ Qed.
 
 (* a message with payload d *)
 Lemma feed_payload h l mg n k d :
-  one_msg rl l = Got mg n -> after mg = Some (k, lenN d) -> skipn n l = d ->
+  one_msg pol rl l = Got mg n -> after mg = Some (k, lenN d) -> skipn n l = d ->
   feedx h RIdle l = PRes (fst (handle (fst (handle h mg)) (pay_done k))) RIdle [] [EMsg mg; EMsg (pay_done k)].
 Proof.
   intros O A S. rewrite feedx_idle, O, (handle_cont h mg), A, S.
@@ -82,37 +92,42 @@ Qed.
 Lemma enc_one h m : wf_wmsg rl m ->
   feedx h RIdle (enc_msg m) = PRes (hfold h (denotes m)) RIdle [] (map EMsg (denotes m)).
 Proof.
-  intros W. destruct m; cbn [enc_msg denotes map hfold fold_left].
+  intros W. pose proof (policy_accepts_hdr m W) as PH.
+  destruct m; cbn [enc_msg denotes map hfold fold_left whdr fst snd] in *.
   - (* keep-alive *)
     apply feed_plain with (n := 4); try reflexivity.
   - apply feed_plain with (n := 5); try reflexivity.
+    rewrite one_msg_enc by lia. unfold one_body. rewrite PH. reflexivity.
   - apply feed_plain with (n := 5); try reflexivity.
+    rewrite one_msg_enc by lia. unfold one_body. rewrite PH. reflexivity.
   - apply feed_plain with (n := 5); try reflexivity.
+    rewrite one_msg_enc by lia. unfold one_body. rewrite PH. reflexivity.
   - apply feed_plain with (n := 5); try reflexivity.
+    rewrite one_msg_enc by lia. unfold one_body. rewrite PH. reflexivity.
   - (* have *)
     cbn in W. apply feed_plain with (n := 9); try reflexivity.
-    rewrite one_msg_enc by lia. unfold one_body. idtests.
+    rewrite one_msg_enc by lia. unfold one_body. rewrite PH. idtests.
     unfold rd32, rd, be32. cbn [app length Nat.ltb Nat.leb Nat.add N.to_nat Pos.to_nat Pos.iter_op nth_error].
     rewrite be32_val by assumption. reflexivity.
   - (* request *)
     cbn in W. destruct W as (W1 & W2 & W3). apply feed_plain with (n := 17); try reflexivity.
-    rewrite one_msg_enc by lia. unfold one_body. idtests.
+    rewrite one_msg_enc by lia. unfold one_body. rewrite PH. idtests.
     unfold rd32, rd, be32. cbn [app length Nat.ltb Nat.leb Nat.add N.to_nat Pos.to_nat Pos.iter_op nth_error].
     rewrite !be32_val by assumption. reflexivity.
   - (* cancel *)
     cbn in W. destruct W as (W1 & W2 & W3). apply feed_plain with (n := 17); try reflexivity.
-    rewrite one_msg_enc by lia. unfold one_body. idtests.
+    rewrite one_msg_enc by lia. unfold one_body. rewrite PH. idtests.
     unfold rd32, rd, be32. cbn [app length Nat.ltb Nat.leb Nat.add N.to_nat Pos.to_nat Pos.iter_op nth_error].
     rewrite !be32_val by assumption. reflexivity.
   - (* port *)
     cbn in W. apply feed_plain with (n := 7); try reflexivity.
-    rewrite one_msg_enc by lia. unfold one_body. idtests.
+    rewrite one_msg_enc by lia. unfold one_body. rewrite PH. idtests.
     unfold rd16, rd, be32. cbn [app length Nat.ltb Nat.leb Nat.add N.to_nat Pos.to_nat Pos.iter_op nth_error].
     rewrite be16_val by assumption. reflexivity.
   - (* piece *)
     cbn in W. destruct W as (R & W1 & W2 & W3).
     apply (feed_payload h _ (MPiece i o (lenN data)) 13 KPiece data); [|reflexivity|reflexivity].
-    rewrite one_msg_enc by lia. unfold one_body. idtests.
+    rewrite one_msg_enc by lia. unfold one_body. rewrite PH. idtests.
     rewrite R. cbn [is_leech negb].
     change Params.c03_piece_min_len with 9%N. change Params.c03_piece_hdr_sub with 9%N.
     assert (X : (9 + lenN data <? 9)%N = false) by (apply N.ltb_ge; lia). rewrite X.
@@ -122,18 +137,18 @@ Proof.
   - (* extension *)
     cbn in W. destruct W as (W1 & W2).
     apply (feed_payload h _ (MExt ty (lenN data)) 6 KExt data); [|reflexivity|reflexivity].
-    rewrite one_msg_enc by lia. unfold one_body. idtests.
+    rewrite one_msg_enc by lia. unfold one_body. rewrite PH. idtests.
     unfold rd, be32. cbn [app length Nat.ltb Nat.leb Nat.add N.to_nat Pos.to_nat Pos.iter_op nth_error].
-    change Params.c03_ext_hdr_sub with 2%N. change Params.c03_ext_first_invalid with 3%N. change Params.c03_ext_limit with 32768%N.
+    change Params.c03_ext_hdr_sub with 2%N. change Params.c03_ext_limit with 32768%N.
     assert (E : sub32 (2 + lenN data) 2 = lenN data) by (unfold sub32; lia). rewrite E.
-    assert (X1 : (3 <=? ty)%N = false) by (apply N.leb_gt; lia).
+    assert (X1 : p_ext pol ty (lenN data) = false) by (apply policy_accepts_ext; cbn; tauto).
     assert (X2 : (32768 <? lenN data)%N = false) by (apply N.ltb_ge; lia).
     assert (X3 : (2147483648 <=? lenN data)%N = false) by (apply N.leb_gt; lia).
     rewrite X1, X2, X3. reflexivity.
   - (* bitfield (metadata connection) *)
     cbn in W. destruct W as (R & W1).
     apply (feed_payload h _ (MBitfield (lenN data)) 5 KBits data); [|reflexivity|reflexivity].
-    rewrite one_msg_enc by lia. unfold one_body. idtests. rewrite R. cbn [is_meta].
+    rewrite one_msg_enc by lia. unfold one_body. rewrite PH. idtests. rewrite R. cbn [is_meta].
     replace (1 + lenN data - 1)%N with (lenN data) by lia. reflexivity.
 Qed.
 
@@ -142,12 +157,12 @@ Proof. unfold hfold. rewrite fold_left_app. reflexivity. Qed.
 
 Theorem decode_spec : forall (ms : list wmsg) (h : HS),
   Forall (wf_wmsg rl) ms ->
-  decode HS handle rl h (encode_msgs ms) =
+  decode HS handle rl pol h (encode_msgs ms) =
   PRes (hfold h (concat (map denotes ms))) RIdle [] (map EMsg (concat (map denotes ms))).
 Proof.
   intros ms h W. rewrite decode_feedx. revert h. induction W as [|m ms Wm Wms IH]; intros h.
   - cbn. rewrite feedx_idle. reflexivity.
-  - cbn [encode_msgs map concat]. rewrite (feedx_app' HS handle rl h RIdle (enc_msg m)), (enc_one h m Wm).
+  - cbn [encode_msgs map concat]. rewrite (feedx_app' HS handle rl pol h RIdle (enc_msg m)), (enc_one h m Wm).
     unfold ProofsB.pbind. cbn [app]. fold (encode_msgs ms). rewrite IH.
     unfold ProofsB.papp. rewrite hfold_app, map_app. reflexivity.
 Qed.
@@ -156,7 +171,7 @@ End Spec.
 
 (* non-vacuity: a handler that always continues, and a well-formed list with every payload kind *)
 Example decode_spec_sat :
-  decode unit (fun h _ => (h, VCont)) Leech tt
+  decode unit (fun h _ => (h, VCont)) Leech pol_src tt
          (encode_msgs [WKeepAlive; WInterested; WHave 3; WRequest 1 0 16384; WPiece 1 0 [7; 7]%N; WExt 0 [100; 101]%N; WPort 6881])
   = PRes tt RIdle [] (map EMsg [MKeepAlive; MInterested; MHave 3; MRequest 1 0 16384; MPiece 1 0 2; MPieceDone;
                                 MExt 0 2; MExtDone; MPort 6881]%N).
